@@ -21,9 +21,15 @@ class Scratch:
         self.obs = []
         self.counts = {}
 
-    def ob(self, rule, key, where, ok, how="", detail="", nontrivial=True):
+    def ob(self, rule, key, where, ok, how="", detail="", nontrivial=True, positive=False):
         self.obs.append((rule, key, bool(ok)))
         return bool(ok)
+
+    def site(self, key):
+        pass
+
+    def site_known(self, key):
+        return True
 
     def exempt(self, *a):
         pass
